@@ -153,7 +153,7 @@ def rule_G(ctx):
     sp = spec(prog, SPEC_DP_INNER, f, **CI)
     _selection(ctx, "G1", "G4", f, ex, "DataPointSampler._sample_tree")
     same_events(ctx, "G2", "DataPointSampler._sample_tree: candidates = copy, remove(old) + add(each clone), plus the outlier set iff enabled", f,
-                _dedupe(rewrite_events(ex.calls(".log_p_one"), _tv)), _dedupe(rewrite_events(sp.calls(".log_p_one"), _tv)), "candidates handed to log_p_one")
+                _dedupe(rewrite_events(ex.calls(".log_p_one"), _tv)), _dedupe(rewrite_events(sp.calls(".log_p_one"), _tv)), "candidates handed to log_p_one", guards=True)
     same(ctx, "G4", "DataPointSampler._sample_tree returns candidates[drawn index]", f, rewrite(ex.result, _tv), rewrite(sp.result, _tv), "returned tree")
 
     g = prog.fn("PruneRegraphSampler.sample_tree")
@@ -161,8 +161,8 @@ def rule_G(ctx):
     sp = spec(prog, SPEC_PRG, g, **CI)
     _selection(ctx, "G1", "G4", g, ex, "PruneRegraphSampler.sample_tree")
     same_events(ctx, "G2", "PruneRegraphSampler: candidates = copy of the pruned tree + the same subtree under each remaining node and the virtual root", g,
-                _dedupe(ex.calls(".log_p_one")), _dedupe(sp.calls(".log_p_one")), "candidates handed to log_p_one")
-    same_events(ctx, "G2", "PruneRegraphSampler: subtree root drawn uniformly from the nodes of the copy", g, ex.calls(".choice"), sp.calls(".choice"), "rng.choice(nodes)")
+                _dedupe(ex.calls(".log_p_one")), _dedupe(sp.calls(".log_p_one")), "candidates handed to log_p_one", guards=True)
+    same_events(ctx, "G2", "PruneRegraphSampler: subtree root drawn uniformly from the nodes of the copy", g, ex.calls(".choice"), sp.calls(".choice"), "rng.choice(nodes)", guards=True)
     # the returned value: candidates[idx] (the code stores [n_children, tree] pairs: project the tree)
     _returned_candidate(ctx, g, ex, sp)
 
